@@ -22,5 +22,5 @@ fi
 for P in "$@"; do
   OUT=$(cd /verif && VERIF_REPO="$WT" VERIF_EVIDENCE_DIR="$WT/.evidence" ./vcheck "$P" "$TIER" 2>&1)
   RC=$?
-  echo "$P $TIER exit=$RC $(echo "$OUT" | grep -E "unlisted violation|INCONCLUSIVE" | head -2 | cut -c1-260)"
+  echo "$P $TIER exit=$RC $(echo "$OUT" | grep -a -E "unlisted violation|INCONCLUSIVE" | head -2 | cut -c1-260)"
 done
